@@ -102,7 +102,7 @@ func (sh *blobShape) lenOf(x ssa.Value, recv *ssa.Parameter) string {
 
 func runC19(c *core.Ctx) {
 	runFixtures(c, "bounds", "locks")
-	c.Explain("Structural clauses of C19 decided from source: (R19.1) every slice/make whose bounds depend on a parameter in a slice-backed Blob method is entailed safe by the dominating comparisons (difference-constraint closure), and every int64 parameter of View/Slice/Set/Grow/Truncate has a 'negative => error' guard dominating all mutations; (R19.2) View/Slice select receiver data by [start:end]; (R19.3) View aliases (shares array and mutex), Slice copies into a fresh allocation; (R19.4) no interface dispatch / re-locking call while the blob mutex may be held; (R19.5) every store to the data field is followed by the atomic length mirror in the same block; (R19.6) in the js/wasm typed-array Blob every value written to the mirrored length is non-negative by guards or was accepted by a typed-array allocation (guard-set differences to blob.Bytes are listed as information only: the JS engine clamps or validates the rest), and View/Slice use subarray/slice(start,end). (R19.7) the length reads behind the guards of a slice of the mutex-guarded buffer are made inside the critical section that slices (an unlocked fast-path test repeated under the lock is accepted): a bound checked before locking is stale when another handle resizes the blob, and the slice panics instead of returning an error. (R19.8) no method of the slice-backed blob contains an explicit panic: 'cannot happen' errors of its own methods do happen when another handle resizes the blob between a length read and the call (Bytes() panicked this way). (R19.9) View and Slice of every Blob type return a blob value other than the receiver (no full-range 'return b' fast path). (R19.10) in the js/wasm blob a slice that is made the Go-side cache is not returned to the caller as well. (R19.11) no Blob method returns a package-level blob; (R19.12, js/wasm) the typed-array blob repeats each mutation on its Go-side cache with its own parameters. (R19.13) no method returns with the mutex held; (R19.14) View and Slice have identical error guards. NOT claimed: byte-exact equality with a []byte model over operation sequences, aliasing after Grow reallocates, behaviour of the JS engine.")
+	c.Explain("Structural clauses of C19 decided from source: (R19.1) every slice/make whose bounds depend on a parameter in a slice-backed Blob method is entailed safe by the dominating comparisons (difference-constraint closure), and every int64 parameter of View/Slice/Set/Grow/Truncate has a 'negative => error' guard dominating all mutations; (R19.2) View/Slice select receiver data by [start:end]; (R19.3) View aliases (shares array and mutex), Slice copies into a fresh allocation; (R19.4) no interface dispatch / re-locking call while the blob mutex may be held; (R19.5) every store to the data field is followed by the atomic length mirror in the same block; (R19.6) in the js/wasm typed-array Blob every value written to the mirrored length is non-negative by guards or was accepted by a typed-array allocation (guard-set differences to blob.Bytes are listed as information only: the JS engine clamps or validates the rest), and View/Slice use subarray/slice(start,end). (R19.7) the length reads behind the guards of a slice of the mutex-guarded buffer are made inside the critical section that slices (an unlocked fast-path test repeated under the lock is accepted): a bound checked before locking is stale when another handle resizes the blob, and the slice panics instead of returning an error. (R19.8) no method of the slice-backed blob contains an explicit panic: 'cannot happen' errors of its own methods do happen when another handle resizes the blob between a length read and the call (Bytes() panicked this way). (R19.9) View and Slice of every Blob type return a blob value other than the receiver (no full-range 'return b' fast path). (R19.10) in the js/wasm blob a slice that is made the Go-side cache is not returned to the caller as well. (R19.11) no Blob method returns a package-level blob; (R19.12, js/wasm) the typed-array blob repeats each mutation on its Go-side cache with its own parameters. (R19.16, js/wasm) Truncate of the typed-array blob records a length bounded by the current length; (R19.13) no method returns with the mutex held; (R19.14) View and Slice have identical error guards. NOT claimed: byte-exact equality with a []byte model over operation sequences, aliasing after Grow reallocates, behaviour of the JS engine.")
 	c.Assume("A5: all length reads of one receiver inside one method denote one value (sequential reading; concurrent resize between check and use is C15's matter)",
 		"A2: stdlib (sync, sync/atomic, builtin copy/append) behaves as documented; int64->int conversions do not truncate (64-bit int; the 386 target is type-checked in the thorough tier only)")
 	c.RuleDoc("R19.1", "every parameter-dependent slice/make bound in a slice-backed Blob method is entailed by dominating guards; negative => error guard per int64 parameter")
@@ -119,6 +119,7 @@ func runC19(c *core.Ctx) {
 	c.RuleDoc("R19.9", "View and Slice never return the receiver itself")
 	c.RuleDoc("R19.8", "no method of the slice-backed blob panics on purpose")
 	c.RuleDoc("R19.7", "the bounds of a slice of the mutex-guarded buffer are checked inside the critical section that slices")
+	c.RuleDoc("R19.16", "typed-array Blob (js/wasm): Truncate records a length no larger than the current one")
 	c.RuleDoc("R19.6", "typed-array Blob (js/wasm): stored length is guarded non-negative or validated by an allocation")
 	var refGuards map[string][]string
 	for _, p := range c.Progs {
@@ -175,6 +176,7 @@ func runC19(c *core.Ctx) {
 	c.Floor("R19.4", 4)
 	c.Floor("R19.5", 2)
 	c.Floor("R19.6", 2)
+	c.Floor("R19.16", 1)
 	c.Floor("R19.7", 3)
 	c.Floor("R19.8", 6)
 	c.Floor("R19.9", 4)
@@ -798,6 +800,11 @@ func r19Sibling(c *core.Ctx, p *load.Program, sh *blobShape, ref map[string][]st
 			v := ssax.StripIntConv(cl.Call.Args[1])
 			b := ssax.NewBounds(ssax.FactsAtInstr(cl), canon)
 			t, _ := canon(v)
+			if mn == "Truncate" {
+				// R19.16: Truncate only ever shortens — the length it records is at most the length it found
+				c.Check(b.LE(t, ssax.Term{Sym: "LEN(recv)"}, 0), "R19.16", key+"-shrinks", p.Pos(cl.Pos()), "the recorded length is at most the current length by dominating guards",
+					fmt.Sprintf("%s records a length that the dominating comparisons do not bound by the current length: Truncate(size) with size past the end must leave the blob alone, here Len() would report %s while the typed array (which clamps slice's end) keeps its old, shorter contents — Len() and Bytes() disagree from then on", fname(fn), "the requested size"))
+			}
 			if b.LE(ssax.Term{IsConst: true}, t, 0) {
 				c.OK("R19.6", key, p.Pos(cl.Pos()), "stored length non-negative by dominating guards")
 				return
